@@ -29,6 +29,7 @@ pub struct C01;
 const WITNESS: &str = "\u{1}W:";
 
 fn gen_config(r: &mut Rng, g: &RawGen) -> AdminOp {
+    if r.chance(1, 20) { return AdminOp::SetDateRule { mdy: r.chance(1, 2) }; }
     if r.chance(1, 10) {
         // a unit family: a new one, or the name of a built-in family (rejected - and nothing may change)
         return AdminOp::AddType { name: r.pick(&["metric-length", "famq", "metric-weight", "famq", "memory"]).to_string() };
